@@ -75,7 +75,6 @@ Inv_OneBlock == P_OneBlock
 Inv_Sized == P_Sized
 Inv_ElemBalance == P_ElemBalance
 Inv_ScratchDead == ~IsLive(T)
-\* after a successful recreate the layout honours the requested alignment (a stale recorded alignment after a
-\* failed recreate makes a later recreate return early: known finding, excluded by its cause when asked)
-Inv_RowAligned == \A x \in H : (IsLive(x) /\ (fault = "none" \/ ~ExcludeOpenFindings)) => img[x].lay = img[x].align
+\* the layout always honours the recorded alignment, also after a failed recreate
+Inv_RowAligned == \A x \in H : IsLive(x) => img[x].lay = img[x].align
 =============================================================================
